@@ -209,3 +209,11 @@ Definition shutdown_expired_ok (shutdown_returned export_returned : bool) (expor
 Definition timeout_ok (returned : bool) (err : N) (elapsed_ns bound_ns : Z) (late attempts : nat) (headers_ok : bool) : bool :=
   returned && negb (err =? 0)%N && (elapsed_ns <=? bound_ns + 10 * NS_PER_S) &&
   Nat.eqb late 0 && headers_ok.
+
+(** Transport errors of the HTTP clients (no response at all): k consecutive errors, then a working transport.
+    A temporary error (net.Error with Temporary() = true, whatever Timeout() says) is retry-able: the export is
+    re-sent and succeeds after k + 1 transport calls, one request reaches the collector and it carries the
+    export's own payload; any other transport error is final: one call, nothing sent, an error returned. *)
+Definition neterr_ok (temporary : bool) (k calls requests : nat) (body_ok : bool) (err : N) : bool :=
+  if temporary then Nat.eqb calls (S k) && Nat.eqb requests 1 && body_ok && (err =? 0)%N
+  else Nat.eqb calls 1 && Nat.eqb requests 0 && negb (err =? 0)%N.
